@@ -231,22 +231,22 @@ func (r *Report) Finish(evidencePath, knownPath string, seed int) int {
 		}
 	}
 	cov := map[string]any{
-		"explanation":      r.Explanation,
-		"not_decided":      r.NotDecided,
-		"obligations":      len(r.Obs),
-		"discharged":       nDis,
-		"known_findings":   nKnown,
-		"rules":            rules,
-		"samples":          samples,
-		"analysed":         r.Analysed,
-		"lists":            lists,
-		"notes":            r.Notes,
-		"trusted_base":     r.Trusted,
-		"checker_cmd":      strings.Join(os.Args, " "),
-		"failures":         failures,
-		"evaluations":      len(r.Obs),
+		"explanation":         r.Explanation,
+		"not_decided":         r.NotDecided,
+		"obligations":         len(r.Obs),
+		"discharged":          nDis,
+		"known_findings":      nKnown,
+		"rules":               rules,
+		"samples":             samples,
+		"analysed":            r.Analysed,
+		"lists":               lists,
+		"notes":               r.Notes,
+		"trusted_base":        r.Trusted,
+		"checker_cmd":         strings.Join(os.Args, " "),
+		"failures":            failures,
+		"evaluations":         len(r.Obs),
 		"distinct_nontrivial": len(r.Obs),
-		"rule":             "one evaluation per obligation (rule + resolved construct); all are distinct by key",
+		"rule":                "one evaluation per obligation (rule + resolved construct); all are distinct by key",
 	}
 	ev := map[string]any{
 		"property_id": r.Prop,
